@@ -83,7 +83,7 @@ def he_jobs(ctx, inv):
 
 def qs_consts(**kw):
     c = {'Threads': '<-ThreadsDef', 'Locs': '<-LocsDef', 'InitVal': '<-InitValDef', 'Ord': '<-OrdCode', 'Weak': False,
-         'NT': 2, 'NG': 1, 'NCells': 1, 'NNodes': 3, 'MaxOps': 2, 'MaxFlush': 5, 'CheckOld': True, 'FullCycle': True}
+         'NT': 2, 'NG': 1, 'NCells': 1, 'NNodes': 3, 'MaxOps': 2, 'MaxFlush': 5, 'CheckOld': True, 'FullCycle': True, 'ConfirmEpoch': True}
     c.update(kw)
     return c
 
